@@ -44,6 +44,17 @@ def cases(tier, r):
         r.shuffle(sel)
         ps.append({"x": "sel", "rows": R, "cols": C, "sel": sel, "tag": f"rep{i}", "nd": i % 2 == 0})
     ps.append({"x": "sel", "rows": 8, "cols": 1, "sel": [(rr % 8, 0) for rr in range(12)], "tag": "trough-cycle"})
+    # two selections of one geometry alive at the same time
+    for i in range(40 if q else 400):
+        R, C = r.choice([(8, 12), (4, 6), (2, 3), (16, 24), (8, 1)])
+        wells = [(rr, cc) for cc in range(C) for rr in range(R)]
+        ps.append({"x": "sel", "rows": R, "cols": C, "sel": r.sample(wells, r.randint(1, min(len(wells), 8))), "tag": f"two{i}",
+                   "other": r.sample(wells, r.randint(1, min(len(wells), 8)))})
+    # dimensions of 160 and more (two hexadecimal digits whose first one is a letter)
+    for R, C in ((2, 160), (1, 255), (2, 180), (1, 171)):
+        wells = [(rr, cc) for cc in range(C) for rr in range(R)]
+        for sel, tag in ((wells, "full"), ([], "empty"), ([wells[0]], "first"), ([wells[-1]], "last"), (r.sample(wells, 9), "some")):
+            ps.append({"x": "sel", "rows": R, "cols": C, "sel": sel, "tag": f"wide-{tag}"})
     return ps
 
 
